@@ -640,6 +640,7 @@ def run(only=None):
             for p_ in (1, 2, 3):
                 ops.append((f"write_ufloatvar({v},{p_})", lambda v=v, p_=p_: MBXML.write_ufloatvar(v, p_)))
                 ops.append((f"write_sfloatvar({-v},{p_})", lambda v=v, p_=p_: MBXML.write_sfloatvar(-v, p_)))
+                ops.append((f"write_sfloatvar({v},{p_})", lambda v=v, p_=p_: MBXML.write_sfloatvar(v, p_)))
         for v in (0.0, 12.345, 45.0, 89.999999, 90.0):
             ops.append((f"write_latitude({v})", lambda v=v: MBXML.write_latitude(v)))
             ops.append((f"write_longitude({v})", lambda v=v: MBXML.write_longitude(v)))
